@@ -13,8 +13,9 @@ _order = fam_stream.Order()
 _header = fam_stream.HeaderFam()
 _chunk = fam_stream.Chunk()
 _nesting = fam_stream.Nesting()
+_fuzz = fam_stream.Fuzz()
 
-FAMILIES = {f.name: f for f in [_split, _codec, _stream, _calls, _foreign, _truncate, _order, _header, _chunk, _nesting]}
+FAMILIES = {f.name: f for f in [_split, _codec, _stream, _calls, _foreign, _truncate, _order, _header, _chunk, _nesting, _fuzz]}
 
 PROPS = {
     'C16': dict(families=[_split], trusted_base=[
